@@ -483,8 +483,9 @@ impl Config {
                             })?;
                         let base: u32 = subnet.network().into();
                         let addresses = addresses.get_or_insert_with(Vec::new);
-                        for i in 1..(((1 << (32 - subnet.prefixlen)) - 1) - 1) {
-                            addresses.push((base + i).into())
+                        /* Every host address: skip the network (0) and broadcast (last) address. */
+                        for i in 1..((1_u64 << (32 - subnet.prefixlen)) - 1) {
+                            addresses.push((base + i as u32).into())
                         }
                     }
                     Some(x) if x.starts_with("apply-") => {
